@@ -25,7 +25,9 @@
       passes for a by-reference parameter is `index s` (`s < 256` no parameter slot of any routine)
       or the caller's own by-reference parameter; the generic `loads` / `stores` are excluded.
       Then every by-reference parameter cell of an active routine holds a slot number `< 256`
-      (`Proofs/C02GenValid.lean`).
+      (`Proofs/C02GenValid.lean`).  Both calling conventions: under the frame-pointer convention
+      the by-reference arguments are copied from the frame into their scratch slots by the
+      routine's prologue, only the by-value parameter slots are ignored (`ignOf true p true`).
     * `substring/extract/suffix`, `wideRatio`: as in `wt` / excluded.
 
   `inFragmentR p` is the program-level predicate; `stageOf p fp` says which stage of the proof plan
@@ -69,7 +71,8 @@ def primSigK (K : RK) (op : String) : Option (Nat × Nat) :=
     (if K.dyn && (op == "vloads" || op == "vstores") then primSig op
      else if K.strict then (if Models.Optimizer.framedOps.contains op then primSig op else none)
      else primSigR op)
-  else if Models.Optimizer.framedOps.contains op then primSig op else none
+  else if Models.Optimizer.framedOps.contains op then primSig op
+  else if K.strict && K.dyn && (op == "vloads" || op == "vstores") then primSig op else none
 
 /-- R9 (by-reference discipline), addresses: `vloads` / `vstores` dereference a by-reference
     parameter of the routine they occur in -/
@@ -201,9 +204,17 @@ end
 /-- all parameter slots of the program -/
 def allParamSlots (p : Prog) : List Nat := p.subs.flatMap (fun sd => sd.params.map (·.2))
 
-/-- the slots `SameW` ignores: under the frame-pointer convention the parameter cells of the source
-    semantics have no counterpart in scratch space -/
-def ignOf (fp : Bool) (p : Prog) : List Nat := if fp then allParamSlots p else []
+/-- the by-reference / by-value parameter slots of a routine -/
+def refSlots (sd : SubDef) : List Nat := (sd.params.filter (fun kv => kv.1 == .ref)).map (·.2)
+def valSlots (sd : SubDef) : List Nat := (sd.params.filter (fun kv => kv.1 == .val)).map (·.2)
+def allRefSlots (p : Prog) : List Nat := p.subs.flatMap refSlots
+def allValSlots (p : Prog) : List Nat := p.subs.flatMap valSlots
+
+/-- the slots `SameW` ignores: under the frame-pointer convention the cells of the by-value
+    parameters of the source semantics have no counterpart in scratch space (without the
+    by-reference discipline every parameter is by value: all parameter slots) -/
+def ignOf (fp : Bool) (p : Prog) (strict : Bool := false) : List Nat :=
+  if fp then (if strict then allValSlots p else allParamSlots p) else []
 
 /-- `genSub`'s table of by-value parameters read with `frame_dig` -/
 def fpParams (sd : SubDef) : List (Var × Int) :=
@@ -237,24 +248,25 @@ def okCallsOf (p : Prog) (sd : SubDef) : List Nat :=
     sd.reenters.contains g ||
     (closedSet p (reachSet p g) && (reachSet p g).contains g && !(reachSet p g).contains sd.id))
 
-/-- the by-reference / by-value parameter slots of a routine -/
-def refSlots (sd : SubDef) : List Nat := (sd.params.filter (fun kv => kv.1 == .ref)).map (·.2)
-def valSlots (sd : SubDef) : List Nat := (sd.params.filter (fun kv => kv.1 == .val)).map (·.2)
-def allRefSlots (p : Prog) : List Nat := p.subs.flatMap refSlots
 /-- routine id ↦ which parameters are by reference -/
 def kindsOf (p : Prog) : List (Nat × List Bool) := p.subs.map (fun sd => (sd.id, sd.params.map (fun kv => kv.1 == .ref)))
 
 /-- typing context of the main routine / of a subroutine -/
 def mainK (fp : Bool) (p : Prog) (dyn : Bool := false) (strict : Bool := false) : RK :=
-  if strict && !fp then
-    { callees := calleesOf p, rv := true, dyn := dyn, strict := true, refAll := allRefSlots p,
+  if strict then
+    { callees := calleesOf p, rv := true, ign := ignOf fp p true, dyn := dyn, strict := true, refAll := allRefSlots p,
       parAll := allParamSlots p, kinds := kindsOf p, okCalls := some (callsOf p.main) }
   else { callees := calleesOf p, rv := true, ign := ignOf fp p, dyn := dyn }
 
 def subK (fp : Bool) (p : Prog) (sd : SubDef) (dyn : Bool := false) (strict : Bool := false) : RK :=
   if fp then
-    { callees := calleesOf p, rv := sd.hasRet, ign := allParamSlots p, own := sd.params.map (·.2),
-      okCalls := some (okCallsOf p sd), dyn := dyn }
+    (if strict then
+      { callees := calleesOf p, rv := sd.hasRet, ign := allValSlots p, own := valSlots sd,
+        okCalls := some (okCallsOf p sd), dyn := dyn, strict := true, ref := refSlots sd,
+        refAll := allRefSlots p, parAll := allParamSlots p, kinds := kindsOf p }
+     else
+      { callees := calleesOf p, rv := sd.hasRet, ign := allParamSlots p, own := sd.params.map (·.2),
+        okCalls := some (okCallsOf p sd), dyn := dyn })
   else if strict then
     { callees := calleesOf p, rv := sd.hasRet, dyn := dyn, strict := true, ref := refSlots sd,
       refAll := allRefSlots p, parAll := allParamSlots p, kinds := kindsOf p, okCalls := some (callsOf sd.body) }
@@ -272,14 +284,15 @@ def spillSlotsC (fp : Bool) (sd : SubDef) : List Nat := Check.sortNat (Check.spi
     re-entrant call) -/
 def subOkC (fp : Bool) (p : Prog) (sd : SubDef) (dyn : Bool := false) (strict : Bool := false) : Bool :=
   wtR (subK fp p sd dyn strict) false true (if sd.hasRet then 1 else 0) sd.body &&
-  sd.params.all (fun kv => (kv.1 == .val || !fp) && (fp || decide (kv.2 < 256))) &&
+  sd.params.all (fun kv => (kv.1 == .val || !fp || strict) && ((fp && kv.1 == .val) || decide (kv.2 < 256))) &&
   nodupB (sd.params.map (·.2)) &&
-  sd.locals.all (fun v => (ignOf fp p).contains v || decide (v < 256)) &&
+  sd.locals.all (fun v => (ignOf fp p strict).contains v || decide (v < 256)) &&
   nodupB (spillSlotsC fp sd) &&
-  (spillSlotsC fp sd).all (fun x => sd.locals.contains x && !(ignOf fp p).contains x) &&
-  sd.locals.all (fun x => (ignOf fp p).contains x || (spillSlotsC fp sd).contains x) &&
+  (spillSlotsC fp sd).all (fun x => sd.locals.contains x && !(ignOf fp p strict).contains x) &&
+  sd.locals.all (fun x => (ignOf fp p strict).contains x || (spillSlotsC fp sd).contains x) &&
   (!fp || sd.params.all (fun kv => sd.locals.contains kv.2)) &&
-  (!strict || (valSlots sd).all (fun v => !(allRefSlots p).contains v))
+  (!strict || ((valSlots sd).all (fun v => !(allRefSlots p).contains v) &&
+               (refSlots sd).all (fun v => !(allValSlots p).contains v)))
 
 def mainOkC (fp : Bool) (p : Prog) (dyn : Bool := false) (strict : Bool := false) : Bool :=
   wtR (mainK fp p dyn strict) false true 0 p.main || wtR (mainK fp p dyn strict) false true 1 p.main
